@@ -31,6 +31,9 @@ use std::collections::{BTreeMap, BTreeSet};
 use std::panic::AssertUnwindSafe;
 use std::path::{Path, PathBuf};
 
+#[path = "c12/names.rs"]
+mod names;
+
 const MAIN_PATH: &str = "/p/main.graphql";
 const STANDALONE_CONFIG: &str = "schema: ./schema.graphql\ndocuments: ./*.graphql\nextensions:\n  nitrogql:\n    generate:\n      mode: standalone-ts-4.0\n";
 
@@ -817,7 +820,17 @@ impl<'a> Ctx<'a> {
                         if want != have {
                             let missing: Vec<&String> = want.iter().filter(|w| !have.contains(w)).collect();
                             let extra: Vec<&String> = have.iter().filter(|h| !want.contains(h)).collect();
-                            let sig = if !missing.is_empty() { "closure:missing" } else if !extra.is_empty() { "closure:extra" } else { "closure:duplicate" };
+                            let base = if !missing.is_empty() { "closure:missing" } else if !extra.is_empty() { "closure:extra" } else { "closure:duplicate" };
+                            // class of the defect: how the offending fragment names relate to the name of the head definition
+                            // (names live in separate namespaces; a printer that confuses them drops / adds exactly these)
+                            let head = defs[i].name().map(|s| s.to_string());
+                            let offending: &Vec<&String> = if !missing.is_empty() { &missing } else { &extra };
+                            let rel = match &head {
+                                Some(h) if !offending.is_empty() && offending.iter().all(|o| *o == h) => ":named-like-the-head-definition",
+                                Some(h) if !offending.is_empty() && offending.iter().all(|o| o.eq_ignore_ascii_case(h)) => ":named-like-the-head-definition-up-to-case",
+                                _ => "",
+                            };
+                            let sig = &format!("{base}{rel}");
                             self.rep.fail("O", sig, &format!("{path}, definition {i}: appended fragments {have_in_order:?}, needed {want_in_order:?}"), case_json.clone());
                         }
                         for d in &got_defs[1..] {
@@ -862,6 +875,34 @@ fn corpus() -> Vec<Case> {
         Case::text("query Q @od(x: 1) { z: a @fd { ... on T @id { b } ... @skip(if: true) { c } ...F @sd } } fragment F on T @frd(y: [E]) { c }"),
         Case::text("mutation M { m } subscription S { s } query { q }"),
     ];
+    // names shared across namespaces (operation / fragment / field / alias / variable / directive / type), case
+    // variants, keyword-like names, derived identifiers, anonymous operation next to fragments
+    for c in [
+        "query A { ...A } fragment A on T { a }",
+        "mutation A { m { ...B } } fragment B on T { b ...A } fragment A on T { x }",
+        "query A { ...A } subscription B { ...A ...B } fragment A on T { a ...B } fragment B on T { b ...A }",
+        "query a { ...A ...a } fragment A on T { x } fragment a on T { y } query A { ...a }",
+        "{ ...query } fragment query on T { a ...Query } fragment Query on T { b }",
+        "query f($f: Int = 1 @f) @f { f: f(f: $f) @f(f: f) { ...f ... on f { f } } } fragment f on f @f { f }",
+        "query Get { ...GetQuery ...Get } fragment GetQuery on T { a } fragment Get on T { b } mutation get { ...get } fragment get on T { c ...GetQuery }",
+        "query ($v: Int) { a(x: $v) { ...v ...a } } fragment v on T { v } fragment a on T { a ...x } fragment x on T { x }",
+    ] {
+        v.push(Case::text(c));
+    }
+    v.push(Case {
+        schema: None,
+        main: "#import A, B from \"./frags.graphql\"\nquery A { ...B } mutation B { ...B } fragment C on T { ...A }".into(),
+        imports: vec![("/p/frags.graphql".into(), "fragment B on T { b ...A } fragment A on T { a }".into())],
+        origin: "corpus".into(),
+        k_only: false,
+    });
+    v.push(Case {
+        schema: Some("type Query { me: Person! } type Mutation { rename(name: String): Person } type Person { id: ID! name: String best: Person }".into()),
+        main: "query Person($name: String) { me { ...Person best { ...name } } } mutation name($name: String) { rename(name: $name) { ...name } } fragment Person on Person { id best { ...name } } fragment name on Person { name }".into(),
+        imports: vec![],
+        origin: "corpus".into(),
+        k_only: false,
+    });
     for c in [
         "query Q { ...Missing }",
         "query Q { ...F } fragment F on T { ...Missing }",
@@ -907,7 +948,10 @@ fn main() {
         return;
     }
 
-    ctx.run(&corpus().into_iter().map(|c| (c, BTreeSet::new())).collect::<Vec<_>>());
+    // C12_SKIP_CORPUS=1 (debugging aid): only the generated streams, to see what THEY find
+    if std::env::var("C12_SKIP_CORPUS").is_err() {
+        ctx.run(&corpus().into_iter().map(|c| (c, BTreeSet::new())).collect::<Vec<_>>());
+    }
 
     let search = args.extra.get("search").map_or(false, |s| s == "1");
     let mut rng = Rng::new(args.seed);
@@ -929,6 +973,12 @@ fn main() {
                 }
             }
         }
+        // names from the other namespaces (operation / field / alias / variable / directive / type …) as fragment and
+        // operation names: legal, and the printers select the appended fragments by name
+        if rng.chance(2, 5) {
+            let type_names: Vec<String> = schema.types().map(|t| t.name.clone()).collect();
+            features.extend(names::collide_names(&mut rng, &mut doc, &type_names));
+        }
         let (main_doc, imports) = if rng.chance(1, 3) { split_imports(&mut rng, &doc) } else { (doc.clone(), vec![]) };
         if !imports.is_empty() {
             features.insert("imported-fragments".into());
@@ -946,7 +996,10 @@ fn main() {
     // (B) syntactic documents (js + loader paths): every value kind, directives everywhere, cyclic fragment graphs
     let n_syn = if search { 12000 } else { args.budget(600, 8000) };
     for _ in 0..n_syn {
-        let (doc, mut features, undefined) = gen_syntactic(&mut rng, true);
+        let (mut doc, mut features, undefined) = gen_syntactic(&mut rng, true);
+        if rng.chance(2, 5) {
+            features.extend(names::collide_names(&mut rng, &mut doc, &[]));
+        }
         if has_cycle(&doc) {
             features.insert("fragment-cycle".into());
         }
